@@ -13,12 +13,39 @@ CASE_TIMEOUT = 4.0
 
 
 def clear_caches():
-    from dep_logic import markers as M
-    from dep_logic import utils as U
-    from dep_logic.markers import single as S
-    for f in (M.parse_marker, S._merge_single_markers, U.cnf, U.dnf):
-        if hasattr(f, "cache_clear"):
-            f.cache_clear()
+    """clear every functools cache reachable from the dep_logic modules (not only the four
+    the pinned tree has: a change may add one)"""
+    import sys as _sys
+    seen = set()
+    for name, mod in list(_sys.modules.items()):
+        if not (name == "dep_logic" or name.startswith("dep_logic.")) or mod is None:
+            continue
+        for obj in list(vars(mod).values()):
+            cands = [obj]
+            if isinstance(obj, type):
+                for v in vars(obj).values():
+                    cands.append(getattr(v, "__func__", v))
+            for c in cands:
+                cc = getattr(c, "cache_clear", None)
+                if callable(cc) and id(c) not in seen:
+                    seen.add(id(c))
+                    try:
+                        cc()
+                    except Exception:  # noqa: BLE001
+                        pass
+
+
+def fresh_results(jobs):
+    """run each job first in a fresh interpreter (fork of a process that never imported dep_logic)"""
+    import json
+    import subprocess
+    import sys as _sys
+    from pathlib import Path
+    script = Path(__file__).resolve().parent / "fresh_probe.py"
+    inp = "\n".join(json.dumps(j, default=lambda o: sorted(o) if isinstance(o, set) else str(o)) for j in jobs) + "\n"
+    p = subprocess.run([_sys.executable, str(script)], input=inp, capture_output=True, text=True, timeout=900)
+    out = [json.loads(l) for l in p.stdout.splitlines() if l.startswith("{")]
+    return out if len(out) == len(jobs) else None
 
 
 def parse(t):
@@ -162,8 +189,19 @@ def derived(ctx: Ctx, n, salt):
         if i < len(CORPUS_PAIRS):
             ta, tb = CORPUS_PAIRS[i]
             a, b = parse(ta), parse(tb)
-        if rng.random() < 0.05:
+        if rng.random() < 0.12:
             tb, b = rng.choice(specials)
+            # prefer a compound left operand: that is where Empty/Any operands go through union()/intersection()
+            for _ in range(6):
+                if mg.kind(a) in ("MarkerUnion", "MultiMarker") and any(mg.kind(c) in ("MarkerUnion", "MultiMarker") for c in a.markers):
+                    break
+                ta, a = rng.choice(parsed)
+        elif rng.random() < 0.1:
+            # an operand that is itself a (possibly empty / universal) result
+            (tc, c), (td, d) = rng.choice(parsed), rng.choice(parsed)
+            ok, b2 = safe(ctx, "derive", lambda: c & d if rng.random() < 0.6 else c | d)
+            if ok:
+                tb, b = f"[{tc}] &| [{td}]", b2
         for opname, f in (("&", lambda: a & b), ("|", lambda: a | b)):
             ok, r = safe(ctx, "derive", f)
             if ok:
@@ -505,8 +543,9 @@ def oracle_c11(ctx: Ctx):
 
 # ------------------------------------------------------------------------------ C10
 def oracle_c10(ctx: Ctx, n):
-    """history independence: run a history, then a probe; compare with the probe after
-    cache_clear() (and, thorough tier, in a fresh interpreter)"""
+    """history independence: run a history, then a probe, in this process; compare with the
+    same probe run FIRST in a fresh interpreter (forked from a process that never imported
+    dep_logic), text and truth table"""
     rng = random.Random(ctx.seed + 37)
     key_equal_groups = [
         ['"3.8" <= python_version', 'python_version >= "3.8"'],
@@ -515,6 +554,12 @@ def oracle_c10(ctx: Ctx, n):
         ['(os_name == "a" or os_name == "b") and sys_platform == "linux"', '(os_name == "b" or os_name == "a") and sys_platform == "linux"'],
         ['os_name != "nt" and os_name != "posix"', 'os_name != "posix" and os_name != "nt"'],
         ['"nt" == os_name', 'os_name == "nt"'],
+    ]
+    paired = [
+        (['python_version >= "3.7"', 'python_version >= "3.7.0"'], ['python_version <= "3.7"', 'python_version <= "3.7.0"']),
+        (['python_full_version > "3.6"', 'python_full_version > "3.6.0"'], ['python_full_version < "3.8"', 'python_full_version < "3.8.0"']),
+        (['python_version >= "3.8"', '"3.8" <= python_version'], ['python_version < "3.10"', '"3.10" > python_version']),
+        (['python_version < "3.7"', 'python_version < "3.7.0"'], ['python_version >= "3.8"', 'python_version >= "3.8.0"']),
     ]
     others = gen_texts(ctx, 40, depth=1, salt=41) + ['sys_platform == "linux"', 'python_version < "3.11"', 'extra == "foo"']
 
@@ -525,43 +570,67 @@ def oracle_c10(ctx: Ctx, n):
         a, b = parse(x), parse(y)
         return (a & b) if kind == "and" else (a | b)
 
+    def envs_for(op):
+        return mg.env_grid([op[1], op[2] or ""], random.Random(5), limit=8)
+
     def observe(op):
         ok, r = safe(ctx, "oracle-C10", lambda: run_op(op))
         if not ok:
             return None
-        envs = mg.env_grid([op[1], op[2] or ""], random.Random(5), limit=8)
-        return (str(r), tuple(ev(r, e) for e in envs))
+        try:
+            return (str(r), tuple(bool(ev(r, e)) for e in envs_for(op)))
+        except Exception as e:  # noqa: BLE001
+            return (f"error {e!r}", ())
 
+    scenarios = []
     for k in range(n):
-        grp = rng.choice(key_equal_groups)
-        hist = []
-        for _ in range(rng.randint(1, 4)):
-            kind = rng.choice(["parse", "and", "or", "and", "or"])
-            x = rng.choice(grp + others[:5])
-            y = rng.choice(others) if kind != "parse" else None
-            hist.append((kind, x, y))
-        probe_kind = rng.choice(["and", "or", "parse"])
-        probe = (probe_kind, rng.choice(grp), rng.choice(others) if probe_kind != "parse" else None)
-        if probe_kind != "parse" and rng.random() < 0.5:
-            # same second operand as some history step: maximises cache-key collisions
-            ys = [h[2] for h in hist if h[2]]
-            if ys:
-                probe = (probe_kind, probe[1], rng.choice(ys))
+        if k % 3 == 0:
+            xs, ys = rng.choice(paired)
+            kind = rng.choice(["and", "or"])
+            hist = [(kind, rng.choice(xs), rng.choice(ys)) for _ in range(rng.randint(1, 2))]
+            probe = (kind, rng.choice(xs), rng.choice(ys))
+            if rng.random() < 0.4:
+                probe = ("parse", f"{probe[1]} {kind} {probe[2]}" + rng.choice(["", ' and python_full_version >= "3.7.2"']), None)
+        else:
+            grp = rng.choice(key_equal_groups)
+            hist = []
+            for _ in range(rng.randint(1, 4)):
+                kind = rng.choice(["parse", "and", "or", "and", "or"])
+                x = rng.choice(grp + others[:5])
+                y = rng.choice(others) if kind != "parse" else None
+                hist.append((kind, x, y))
+            probe_kind = rng.choice(["and", "or", "parse"])
+            probe = (probe_kind, rng.choice(grp), rng.choice(others) if probe_kind != "parse" else None)
+            if probe_kind != "parse" and rng.random() < 0.5:
+                ys_ = [h[2] for h in hist if h[2]]
+                if ys_:
+                    probe = (probe_kind, probe[1], rng.choice(ys_))
+        scenarios.append((hist, probe))
+    # warm observations, in this process
+    warm = []
+    for hist, probe in scenarios:
         clear_caches()
         for h in hist:
             safe(ctx, "oracle-C10", lambda: run_op(h))
-        warm = observe(probe)
-        clear_caches()
-        cold = observe(probe)
-        if warm is None or cold is None:
-            continue
-        ctx.count("oracle-C10", 1, nontrivial_key=(probe_kind, len(hist), tuple(h[0] for h in hist), warm == cold))
-        if warm != cold:
-            what = "meaning" if warm[1] != cold[1] else "rendered text"
-            ctx.finding(f"history|{_c10_class(probe, hist, warm, cold)}", f"the {what} of an operation depends on what was computed before",
-                        {"history": hist, "probe": probe}, {"fresh": cold[0]}, {"after_history": warm[0]})
+        warm.append(observe(probe))
     clear_caches()
-    ctx.sample({"stream": "oracle-C10", "history": hist, "probe": probe})
+    # cold observations: each distinct probe first in a fresh interpreter
+    distinct = list({p for _, p in scenarios})
+    fresh = fresh_results([{"op": list(p), "envs": envs_for(p)} for p in distinct])
+    if fresh is None:
+        ctx.broke("harness", "fresh-interpreter probe runner failed", "fresh_probe.py returned an unexpected number of results")
+        return
+    cold_of = {p: ((f["text"], tuple(f["truth"])) if "text" in f else None) for p, f in zip(distinct, fresh)}
+    for (hist, probe), w in zip(scenarios, warm):
+        c = cold_of[probe]
+        if w is None or c is None:
+            continue
+        ctx.count("oracle-C10", 1, nontrivial_key=(probe[0], len(hist), tuple(h[0] for h in hist), w == c))
+        if w != c:
+            what = "meaning" if w[1] != c[1] else "rendered text"
+            ctx.finding(f"history|{_c10_class(probe, hist, w, c)}", f"the {what} of an operation depends on what was computed before",
+                        {"history": hist, "probe": probe}, {"fresh_interpreter": c[0]}, {"after_history": w[0]})
+    ctx.sample({"stream": "oracle-C10", "history": scenarios[0][0], "probe": scenarios[0][1]})
 
 
 def _c10_class(probe, hist, warm=None, cold=None):
@@ -601,6 +670,9 @@ CORPUS_TEXTS = [
     'python_full_version < "3.0" or python_full_version >= "4.0"',
 ]
 CORPUS_PAIRS = [
+    ('sys_platform == "linux" and os_name == "nt" or sys_platform == "win32"', '<empty>'),
+    ('(sys_platform == "linux" or os_name == "nt") and sys_platform != "win32"', ''),
+    ('sys_platform == "linux" and os_name == "nt" or python_version >= "3.8" and extra == "foo"', '<empty>'),
     ('os_name == "a" or os_name == "b"', 'os_name != "a"'),
     ('sys_platform != "linux" and sys_platform != "win32"', 'sys_platform in "linux darwin"'),
     ('sys_platform == "a" or sys_platform == "b"', 'sys_platform != "a" and sys_platform != "b"'),
